@@ -271,6 +271,10 @@ def _explore_once(mod, modname, inst, seed, W, res, t0):
                           'oracle violated on path %d' % i)
             else:
                 res['inconclusive'].append('solver unknown on property query')
+        elif kind == 'raise' and not _from_repo(p['exc']):
+            res['inconclusive'].append(
+                'harness error (exception not raised by repo code): %s'
+                % p.get('tb', '')[-600:])
         elif kind == 'raise':
             candidate(ctx, 'raise', p['witness'], p,
                       'unexpected %s: %s' % (type(p['exc']).__name__,
@@ -309,6 +313,17 @@ def _explore_once(mod, modname, inst, seed, W, res, t0):
             'exploration incomplete (budget %ss / max paths)'
             % inst['budget_s'])
     return 'done'
+
+
+def _from_repo(ex):
+    """did this exception pass through a frame of the code under test (or
+    of a proxy called from it)?"""
+    tb = ex.__traceback__
+    while tb is not None:
+        if tb.tb_frame.f_code.co_filename.startswith(REPO + '/'):
+            return True
+        tb = tb.tb_next
+    return False
 
 
 def _short(a, n=12):
